@@ -104,40 +104,31 @@ func suffixBlame(c *Ctx, rel map[string]bool, t LogCase) bool {
 	return logImpl(ts, false).String() != mm.String()
 }
 
-// c08PartitionFails states C08's partition clause on the implementation alone: the label set an entry
-// ends with is what the same query gives for its record evaluated on its own (the pipelines generated
-// for C08 have no state); in the full result every entry must sit in the stream carrying that label set,
-// and no label set may head two streams. True = the implementation's own answers contradict each other.
+// c08PartitionFails states C08's partition clause on the implementation alone and within ONE run: the query
+// is extended by `| line_format "{{ . }}"`, which replaces every line by the printed label map the entry
+// carries at the end of the pipeline (grouping is by labels, so the streams are the same); every entry must
+// then sit in the stream whose label map prints to exactly its line, and no label set may head two streams.
+// True = the implementation's own answer contradicts itself.  (No assumption about the stages: a stage that
+// computes wrong labels, statefully or not, still leaves a correct partition of what it computed.)
 func c08PartitionFails(t LogCase, impl Sexp) bool {
 	if impl.Head() != "ok" {
 		return false
 	}
-	allowed := map[string]map[string]bool{}
-	for _, rec := range t.Recs {
-		t1 := t
-		t1.Recs, t1.Limit = []LRec{rec}, -1
-		r1 := logImpl(t1, false)
-		if r1.Head() != "ok" {
-			return false
-		}
-		for _, st := range r1.Args() {
-			for _, e := range st.List[2:] {
-				if allowed[e.String()] == nil {
-					allowed[e.String()] = map[string]bool{}
-				}
-				allowed[e.String()][st.List[1].String()] = true
-			}
-		}
+	text := logQueryText(t.Sel, t.Stages) + ` | line_format "{{ . }}"`
+	mq := &mockQuerier{capsLabel: t.CapsLabel, capsLine: t.CapsLine, recs: t.Recs, shareAttrs: t.Share}
+	data, err := evalQuery(mq, text, 1, 1<<62, 0, -1)
+	if err != nil {
+		return false
 	}
 	heads := map[string]bool{}
-	for _, st := range impl.Args() {
-		ls := st.List[1].String()
+	for _, st := range data.StreamsResult.Result {
+		ls := fmt.Sprint(map[string]string(st.Stream.Value))
 		if heads[ls] {
 			return true
 		}
 		heads[ls] = true
-		for _, e := range st.List[2:] {
-			if !allowed[e.String()][ls] {
+		for _, e := range st.Values {
+			if e.V != ls {
 				return true
 			}
 		}
